@@ -822,6 +822,20 @@ class StmtMixin:
             yield (ex2 if ex2 is not None else exit_), s2
 
     def s_With(self, n, st, fx):
+        # with suppress(E1, ..): BODY  ==  try: BODY / except (E1, ..): pass
+        if len(n.items) == 1 and n.items[0].optional_vars is None and isinstance(n.items[0].context_expr, ast.Call) \
+                and not n.items[0].context_expr.keywords and n.items[0].context_expr.args \
+                and (getattr(n.items[0].context_expr.func, "id", None) == "suppress" or getattr(n.items[0].context_expr.func, "attr", None) == "suppress") \
+                and all(isinstance(a, (ast.Name, ast.Attribute)) for a in n.items[0].context_expr.args):
+            args = n.items[0].context_expr.args
+            typ = args[0] if len(args) == 1 else ast.Tuple(elts=list(args), ctx=ast.Load())
+            h = ast.ExceptHandler(type=typ, name=None, body=[ast.Pass()])
+            t = ast.Try(body=n.body, handlers=[h], orelse=[], finalbody=[])
+            for x in (h, t, typ, h.body[0]):
+                ast.copy_location(x, n)
+            ast.fix_missing_locations(t)
+            yield from self.stmt(t, st, fx)
+            return
         # context managers are opaque: the context expressions are evaluated, targets bound to unknowns, the body runs
         def go(i, s):
             if i == len(n.items):
